@@ -82,21 +82,21 @@ theorem lookup_isSome {β : Type} (l : List (String × β)) (k : String) :
     · have : (k == a) = false := by simpa using e
       rw [this, ← ih]; simp
 
-theorem fg_codes : ∀ p ∈ fgTable, (colourIndex 30 (.int (p.2 : Nat))).map (fun c => 30 + c.val) = some p.2 := by
-  decide
-theorem bg_codes : ∀ p ∈ bgTable, (colourIndex 40 (.int (p.2 : Nat))).map (fun c => 40 + c.val) = some p.2 := by
-  decide
+theorem fg_codes : ∀ p ∈ Generated.fgColors, (colourIndex 30 (.int (p.2 : Nat))).map (fun c => 30 + c.val) = some p.2 := by
+  decide +kernel
+theorem bg_codes : ∀ p ∈ Generated.bgColors, (colourIndex 40 (.int (p.2 : Nat))).map (fun c => 40 + c.val) = some p.2 := by
+  decide +kernel
 theorem style_names_ok : ∀ p ∈ styleNames, p.1 = p.2.name ∧ p.2 ≠ .fg ∧ p.2 ≠ .bg := by decide
 theorem style_keys_eq : styleTable.map Prod.fst = styleNames.map Prod.fst := by decide
 
-theorem fg_lookup (l : String) (code : Nat) (h : fgTable.lookup l = some code) :
+theorem fg_lookup (l : String) (code : Nat) (h : Generated.fgColors.lookup l = some code) :
     ∃ c, colourIndex 30 (.int code) = some c ∧ 30 + c.val = code := by
   have := fg_codes _ (C14S_lookup_mem _ _ _ h)
   simp only at this
   cases hc : colourIndex 30 (.int (code : Nat)) with
   | none => rw [hc] at this; simp at this
   | some c => rw [hc] at this; simp at this; exact ⟨c, rfl, this⟩
-theorem bg_lookup (l : String) (code : Nat) (h : bgTable.lookup l = some code) :
+theorem bg_lookup (l : String) (code : Nat) (h : Generated.bgColors.lookup l = some code) :
     ∃ c, colourIndex 40 (.int code) = some c ∧ 40 + c.val = code := by
   have := bg_codes _ (C14S_lookup_mem _ _ _ h)
   simp only at this
@@ -106,7 +106,7 @@ theorem bg_lookup (l : String) (code : Nat) (h : bgTable.lookup l = some code) :
 
 theorem isStyleName_eq (l : String) : isStyleName l = (styleNames.lookup l).isSome := by
   unfold isStyleName
-  rw [C14_tables.2.2, lookup_isSome, lookup_isSome, style_keys_eq]
+  rw [C14_tables.2.2.2.2.2, lookup_isSome, lookup_isSome, style_keys_eq]
 
 theorem newVal_none (k : Key) : newVal k none = .bool true := by cases k <;> rfl
 
@@ -134,8 +134,8 @@ theorem posStep_spec (lower : String → String) (kw : Kw) (arg : ArgVal) :
       | some (j, oc) => if stepOk (view kw j) oc then .ok (kw.set j.name (newVal j oc)) else .error .valueError := by
   cases arg with
   | str s =>
-    simp only [posStep, posName, colourOfName, specColour_eq, onPrefix_eq, afterOn_eq, C14_tables.1, C14_tables.2.1]
-    cases h1 : fgTable.lookup (lower s) with
+    simp only [posStep, posName, colourOfName, specColour_eq, onPrefix_eq, afterOn_eq]
+    cases h1 : Generated.fgColors.lookup (lower s) with
     | some code =>
       obtain ⟨c, hc, hcode⟩ := fg_lookup _ _ h1
       simp only [Option.bind_some, hc, stepOk, view, Key.name, newVal, Kw.has_eq, hcode]
@@ -144,7 +144,7 @@ theorem posStep_spec (lower : String → String) (kw : Kw) (arg : ArgVal) :
       simp only [Option.bind_none]
       by_cases hon : startsWithOn (lower s) = true
       · simp only [hon, if_true]
-        cases h2 : bgTable.lookup (lower (strDrop3 s)) with
+        cases h2 : Generated.bgColors.lookup (lower (strDrop3 s)) with
         | some code =>
           obtain ⟨c, hc, hcode⟩ := bg_lookup _ _ h2
           simp only [Option.bind_some, hc, stepOk, view, Key.name, newVal, Kw.has_eq, hcode]
@@ -288,7 +288,7 @@ theorem styleName_iff (k : String) : isStyleName k = true ↔ ∃ j : Key, j.nam
   constructor
   · intro h
     unfold isStyleName at h
-    rw [C14_tables.2.2] at h
+    rw [C14_tables.2.2.2.2.2] at h
     cases hl : styleTable.lookup k with
     | none => rw [hl] at h; simp at h
     | some n =>
@@ -406,30 +406,55 @@ theorem colourBlock_spec (table : List (String × Nat)) (base : Int) (key : Stri
     | float => simp [kwColour]
     | other => simp [kwColour]
 
-theorem fg_H1 : ∀ l code, fgTable.lookup l = some code → ∃ c, colourIndex 30 (.int (code : Nat)) = some c := by
+theorem fg_H1 : ∀ l code, Generated.fgColors.lookup l = some code → ∃ c, colourIndex 30 (.int (code : Nat)) = some c := by
   intro l code h
-  have : ∀ p ∈ fgTable, (colourIndex 30 (.int (p.2 : Nat))).isSome = true := by decide
+  have : ∀ p ∈ Generated.fgColors, (colourIndex 30 (.int (p.2 : Nat))).isSome = true := by decide +kernel
   have := this _ (C14S_lookup_mem _ _ _ h)
   exact Option.isSome_iff_exists.mp this
-theorem bg_H1 : ∀ l code, bgTable.lookup l = some code → ∃ c, colourIndex 40 (.int (code : Nat)) = some c := by
+theorem bg_H1 : ∀ l code, Generated.bgColors.lookup l = some code → ∃ c, colourIndex 40 (.int (code : Nat)) = some c := by
   intro l code h
-  have : ∀ p ∈ bgTable, (colourIndex 40 (.int (p.2 : Nat))).isSome = true := by decide
+  have : ∀ p ∈ Generated.bgColors, (colourIndex 40 (.int (p.2 : Nat))).isSome = true := by decide +kernel
   have := this _ (C14S_lookup_mem _ _ _ h)
   exact Option.isSome_iff_exists.mp this
-theorem fg_H2 : ∀ i : Int, fgTable.any (fun p => (p.2 : Int) == i) = (colourIndex 30 (.int i)).isSome := by
-  intro i
-  simp only [fgTable, List.any_cons, List.any_nil, colourIndex]
-  by_cases h : (30:Int) ≤ i ∧ i < 30 + 8
-  · rw [dif_pos h]; simp; omega
-  · rw [dif_neg h]; simp; omega
-theorem bg_H2 : ∀ i : Int, bgTable.any (fun p => (p.2 : Int) == i) = (colourIndex 40 (.int i)).isSome := by
-  intro i
-  simp only [bgTable, List.any_cons, List.any_nil, colourIndex]
-  by_cases h : (40:Int) ≤ i ∧ i < 40 + 8
-  · rw [dif_pos h]; simp; omega
-  · rw [dif_neg h]; simp; omega
-theorem fg_H3 : ∀ b : Bool, fgTable.any (fun p => p.2 == b.toNat) = false := by decide
-theorem bg_H3 : ∀ b : Bool, bgTable.any (fun p => p.2 == b.toNat) = false := by decide
+theorem any_code_iff (table : List (String × Nat)) (base : Nat)
+    (hr : ∀ p ∈ table, base ≤ p.2 ∧ p.2 < base + 8)
+    (hc : ∀ i : Fin 8, table.any (fun p => p.2 == base + i.val) = true) (i : Int) :
+    table.any (fun p => (p.2 : Int) == i) = (colourIndex base (.int i)).isSome := by
+  rw [Bool.eq_iff_iff, List.any_eq_true]
+  simp only [colourIndex, beq_iff_eq]
+  constructor
+  · rintro ⟨p, hp, rfl⟩
+    obtain ⟨h1, h2⟩ := hr p hp
+    have : (base : Int) ≤ (p.2 : Int) ∧ (p.2 : Int) < (base : Int) + 8 := by omega
+    rw [dif_pos this]; rfl
+  · intro h
+    by_cases hh : (base : Int) ≤ i ∧ i < (base : Int) + 8
+    · have hk : (i - base).toNat < 8 := by omega
+      have := hc ⟨(i - base).toNat, hk⟩
+      rw [List.any_eq_true] at this
+      obtain ⟨p, hp, he⟩ := this
+      simp only [beq_iff_eq] at he
+      exact ⟨p, hp, by omega⟩
+    · rw [dif_neg hh] at h; cases h
+
+theorem fg_H2 : ∀ i : Int, Generated.fgColors.any (fun p => (p.2 : Int) == i) = (colourIndex 30 (.int i)).isSome :=
+  any_code_iff Generated.fgColors 30 C14_tables.1 C14_tables.2.1
+theorem bg_H2 : ∀ i : Int, Generated.bgColors.any (fun p => (p.2 : Int) == i) = (colourIndex 40 (.int i)).isSome :=
+  any_code_iff Generated.bgColors 40 C14_tables.2.2.1 C14_tables.2.2.2.1
+
+theorem no_bool_code (table : List (String × Nat)) (base : Nat) (hb : 2 ≤ base)
+    (hr : ∀ p ∈ table, base ≤ p.2 ∧ p.2 < base + 8) (b : Bool) : table.any (fun p => p.2 == b.toNat) = false := by
+  rw [Bool.eq_false_iff]
+  intro h
+  rw [List.any_eq_true] at h
+  obtain ⟨p, hp, he⟩ := h
+  simp only [beq_iff_eq] at he
+  have := (hr p hp).1
+  cases b <;> simp at he <;> omega
+theorem fg_H3 : ∀ b : Bool, Generated.fgColors.any (fun p => p.2 == b.toNat) = false :=
+  no_bool_code _ 30 (by decide) C14_tables.1
+theorem bg_H3 : ∀ b : Bool, Generated.bgColors.any (fun p => p.2 == b.toNat) = false :=
+  no_bool_code _ 40 (by decide) C14_tables.2.2.1
 
 
 /-! ### the tail of parse_args in terms of the per-key view -/
@@ -496,8 +521,8 @@ theorem flagOf_isBool (v : ArgVal) : (flagOf v).isSome = v.isBool := by cases v 
 
 theorem tail_spec (kw : Kw) (hnd : (keysOf kw).Nodup) :
     parseTail kw = if (keysOf kw).all isKnownKey = true then
-      (match assemble (postC bgTable 40 (view kw .bg)) (readFlag (view kw .blink)) (readFlag (view kw .bold))
-          (readFlag (view kw .dark)) (postC fgTable 30 (view kw .fg)) (readFlag (view kw .invert))
+      (match assemble (postC Generated.bgColors 40 (view kw .bg)) (readFlag (view kw .blink)) (readFlag (view kw .bold))
+          (readFlag (view kw .dark)) (postC Generated.fgColors 30 (view kw .fg)) (readFlag (view kw .invert))
           (readFlag (view kw .italic)) (readFlag (view kw .underline)) with
         | some a => .ok a
         | none => .error .valueError)
@@ -518,23 +543,23 @@ theorem tail_spec (kw : Kw) (hnd : (keysOf kw).Nodup) :
           simp only at hb
           cases v <;> simp [ArgVal.isBool] at hb
           exact ⟨_, rfl⟩
-      simp only [parseTail, hkl, C14_tables.1, C14_tables.2.1]
-      rcases block_result fgTable 30 "fg" fg_H1 fg_H2 fg_H3 kw with ⟨hp, he⟩ | ⟨kw2, rfg, hp, he, hr, hsame, hkeys⟩
+      simp only [parseTail, hkl]
+      rcases block_result Generated.fgColors 30 "fg" fg_H1 fg_H2 fg_H3 kw with ⟨hp, he⟩ | ⟨kw2, rfg, hp, he, hr, hsame, hkeys⟩
       · rw [he]
-        have : postC fgTable 30 (view kw .fg) = none := hp
+        have : postC Generated.fgColors 30 (view kw .fg) = none := hp
         rw [assemble_none _ _ _ _ _ _ _ _ (by simp [this])]
       · rw [he]
         simp only
-        rcases block_result bgTable 40 "bg" bg_H1 bg_H2 bg_H3 kw2 with ⟨hp2, he2⟩ | ⟨kw3, rbg, hp2, he2, hr2, hsame2, hkeys2⟩
+        rcases block_result Generated.bgColors 40 "bg" bg_H1 bg_H2 bg_H3 kw2 with ⟨hp2, he2⟩ | ⟨kw3, rbg, hp2, he2, hr2, hsame2, hkeys2⟩
         · rw [he2]
-          have : postC bgTable 40 (view kw .bg) = none := by
+          have : postC Generated.bgColors 40 (view kw .bg) = none := by
             rw [← hp2, hsame "bg" (by decide)]; rfl
           rw [assemble_none _ _ _ _ _ _ _ _ (by simp [this])]
         · rw [he2]
           simp only
-          have hbg : postC bgTable 40 (view kw .bg) = some rbg := by
+          have hbg : postC Generated.bgColors 40 (view kw .bg) = some rbg := by
             rw [← hp2, hsame "bg" (by decide)]; rfl
-          have hfg : postC fgTable 30 (view kw .fg) = some rfg := hp
+          have hfg : postC Generated.fgColors 30 (view kw .fg) = some rfg := hp
           have hall : kw3.all (fun p => attKeys.contains p.1) = true := by
             rw [List.all_eq_true]
             intro p hp3
@@ -686,10 +711,10 @@ theorem ents_style (named : Named) (hwf : WF named) (k : Key) (h1 : k ≠ .fg) (
     · simp only [e, if_false]
       exact ⟨i1, by simpa using i2⟩
 
-theorem newVal_fg (c : Fin 8) : kwColour fgTable 30 (newVal .fg (some c)) = some c := by
+theorem newVal_fg (c : Fin 8) : kwColour Generated.fgColors 30 (newVal .fg (some c)) = some c := by
   have : ((30 + c.val : Nat) : Int) = (30 : Int) + (c.val : Int) := by omega
   simp only [newVal, kwColour, this, specColour_eq, colourIndex_base]
-theorem newVal_bg (c : Fin 8) : kwColour bgTable 40 (newVal .bg (some c)) = some c := by
+theorem newVal_bg (c : Fin 8) : kwColour Generated.bgColors 40 (newVal .bg (some c)) = some c := by
   have : ((40 + c.val : Nat) : Int) = (40 : Int) + (c.val : Int) := by omega
   simp only [newVal, kwColour, this, specColour_eq, colourIndex_base]
 
@@ -755,11 +780,11 @@ theorem denote_eq (lower : String → String) (args : List ArgVal) (kw : Kw) (na
     (h : (args ++ (kw.get? "style").toList).mapM (posName lower) = some named) :
     denote lower args kw =
       if (keysOf (kw.del "style")).all isKnownKey = true then
-        assemble (resolveColour bgTable 40 ((kw.del "style").get? "bg") (colsOf named .bg))
+        assemble (resolveColour Generated.bgColors 40 ((kw.del "style").get? "bg") (colsOf named .bg))
           (resolveStyle ((kw.del "style").get? "blink") (hasOf named .blink))
           (resolveStyle ((kw.del "style").get? "bold") (hasOf named .bold))
           (resolveStyle ((kw.del "style").get? "dark") (hasOf named .dark))
-          (resolveColour fgTable 30 ((kw.del "style").get? "fg") (colsOf named .fg))
+          (resolveColour Generated.fgColors 30 ((kw.del "style").get? "fg") (colsOf named .fg))
           (resolveStyle ((kw.del "style").get? "invert") (hasOf named .invert))
           (resolveStyle ((kw.del "style").get? "italic") (hasOf named .italic))
           (resolveStyle ((kw.del "style").get? "underline") (hasOf named .underline))
@@ -785,10 +810,10 @@ theorem C14_sound_complete : C14_full_statement := by
     obtain ⟨spec1, spec2⟩ := posLoop_spec lower _ (kw.del "style") named hm
     rw [denote_eq lower args kw named hm]
     -- per key: the pipeline run on the per-key state equals the declarative resolution
-    have Kbg : ∀ v0, (runK .bg v0 (ents named .bg)).bind (postC bgTable 40) = resolveColour bgTable 40 v0 (colsOf named .bg) := by
-      intro v0; rw [ents_colour named hwf .bg (Or.inr rfl)]; exact runK_colour .bg bgTable 40 newVal_bg v0 _
-    have Kfg : ∀ v0, (runK .fg v0 (ents named .fg)).bind (postC fgTable 30) = resolveColour fgTable 30 v0 (colsOf named .fg) := by
-      intro v0; rw [ents_colour named hwf .fg (Or.inl rfl)]; exact runK_colour .fg fgTable 30 newVal_fg v0 _
+    have Kbg : ∀ v0, (runK .bg v0 (ents named .bg)).bind (postC Generated.bgColors 40) = resolveColour Generated.bgColors 40 v0 (colsOf named .bg) := by
+      intro v0; rw [ents_colour named hwf .bg (Or.inr rfl)]; exact runK_colour .bg Generated.bgColors 40 newVal_bg v0 _
+    have Kfg : ∀ v0, (runK .fg v0 (ents named .fg)).bind (postC Generated.fgColors 30) = resolveColour Generated.fgColors 30 v0 (colsOf named .fg) := by
+      intro v0; rw [ents_colour named hwf .fg (Or.inl rfl)]; exact runK_colour .fg Generated.fgColors 30 newVal_fg v0 _
     have Kst : ∀ (j : Key), j ≠ .fg → j ≠ .bg → ∀ v0,
         (runK j v0 (ents named j)).bind readFlag = resolveStyle v0 (hasOf named j) := by
       intro j h1 h2 v0
@@ -798,11 +823,11 @@ theorem C14_sound_complete : C14_full_statement := by
     | none =>
       rw [spec1 ha]
       obtain ⟨k, hk⟩ := absLoop_none named _ ha
-      have hnone : assemble (resolveColour bgTable 40 ((kw.del "style").get? "bg") (colsOf named .bg))
+      have hnone : assemble (resolveColour Generated.bgColors 40 ((kw.del "style").get? "bg") (colsOf named .bg))
           (resolveStyle ((kw.del "style").get? "blink") (hasOf named .blink))
           (resolveStyle ((kw.del "style").get? "bold") (hasOf named .bold))
           (resolveStyle ((kw.del "style").get? "dark") (hasOf named .dark))
-          (resolveColour fgTable 30 ((kw.del "style").get? "fg") (colsOf named .fg))
+          (resolveColour Generated.fgColors 30 ((kw.del "style").get? "fg") (colsOf named .fg))
           (resolveStyle ((kw.del "style").get? "invert") (hasOf named .invert))
           (resolveStyle ((kw.del "style").get? "italic") (hasOf named .italic))
           (resolveStyle ((kw.del "style").get? "underline") (hasOf named .underline)) = none := by
@@ -837,8 +862,8 @@ theorem C14_sound_complete : C14_full_statement := by
       rw [← ebg, ← efg, ← e1, ← e2, ← e3, ← e4, ← e5, ← e6]
       by_cases hk : (keysOf (kw.del "style")).all isKnownKey = true
       · simp only [hk, if_true]
-        cases assemble (postC bgTable 40 (g1 .bg)) (readFlag (g1 .blink)) (readFlag (g1 .bold)) (readFlag (g1 .dark))
-            (postC fgTable 30 (g1 .fg)) (readFlag (g1 .invert)) (readFlag (g1 .italic)) (readFlag (g1 .underline)) with
+        cases assemble (postC Generated.bgColors 40 (g1 .bg)) (readFlag (g1 .blink)) (readFlag (g1 .bold)) (readFlag (g1 .dark))
+            (postC Generated.fgColors 30 (g1 .fg)) (readFlag (g1 .invert)) (readFlag (g1 .italic)) (readFlag (g1 .underline)) with
         | none => exact ⟨fun a => by simp, fun _ => rfl⟩
         | some a => exact ⟨fun b => by simp, fun h => by simp at h⟩
       · simp only [hk]
@@ -911,8 +936,8 @@ theorem C14_parse_own_atts (lower : String → String) (a : Atts) : parseArgs lo
     intro o; cases o <;> rfl
   simp only [denote, gs, Option.toList_none, List.append_nil, hdel, List.mapM_nil, hknown, if_true,
     g1, g2, g3, g4, g5, g6, g7, g8]
-  have r1 := rc bgTable 40 a.bg
-  have r2 := rc fgTable 30 a.fg
+  have r1 := rc Generated.bgColors 40 a.bg
+  have r2 := rc Generated.fgColors 30 a.fg
   simp [r1, r2, rs]
 
 /-- `fmtstr(f, *args, **kwargs)` composed with the denotation: the call succeeds exactly on valid specifications
